@@ -532,7 +532,7 @@ def verify_lemma(job: Tuple[str, int]) -> Dict[str, Any]:
                                crosscheck=[], assumed=False, native=None, note=l.note, source_hash="-", lineno=0)
     t0 = time.time()
     try:
-        dummy = C.Contract("lemma::" + name, types=l.types)
+        dummy = C.Contract("lemma::" + name, types=l.types, props=list(l.props))
         eng = Engine(reg, dummy, None)
         env = {}
         pc = []
